@@ -5,6 +5,7 @@ import (
 	"encoding/json"
 	"errors"
 	"fmt"
+	"math/rand"
 	"runtime"
 	"sort"
 	"strconv"
@@ -12,6 +13,8 @@ import (
 	"sync/atomic"
 	"time"
 
+	"github.com/buzzfeed/sso/internal/auth/circuit"
+	"github.com/buzzfeed/sso/internal/auth/providers"
 	"github.com/buzzfeed/sso/internal/pkg/groups"
 )
 
@@ -26,6 +29,48 @@ import (
 
 var errDirectory = errors.New("c17 fake directory: unavailable")
 
+// errKinds are the failures the directory can be scripted to answer with: a generic error, a wrapped
+// one, and the REAL error values the admin services / providers of package providers return (code that
+// special-cases ErrRateLimitExceeded, ErrServiceUnavailable ... must see exactly those values).
+// Kind 0 is "answer naturally".
+var errKinds = []struct {
+	name string
+	err  error
+}{
+	{"none", nil},
+	{"generic", errDirectory},
+	{"wrapped-unavailable", fmt.Errorf("c17 fake directory: %w", providers.ErrServiceUnavailable)},
+	{"rate-limit", providers.ErrRateLimitExceeded},
+	{"unavailable", providers.ErrServiceUnavailable},
+	{"bad-request", providers.ErrBadRequest},
+	{"token-revoked", providers.ErrTokenRevoked},
+	{"not-implemented", providers.ErrNotImplemented},
+	{"circuit-open", &circuit.ErrOpenState{}},
+	{"group-not-found", groups.ErrGroupNotFound},
+}
+
+const kindGeneric = 1
+
+// randErrKind picks a failure kind (never 0).
+func randErrKind(r *rand.Rand) int { return 1 + r.Intn(len(errKinds)-1) }
+
+// failIf returns a random failure kind with probability pct/100, else 0 (natural answer).
+func failIf(r *rand.Rand, pct int) int {
+	if r.Intn(100) < pct {
+		return randErrKind(r)
+	}
+	return 0
+}
+
+func knownErrText(s string) bool {
+	for _, k := range errKinds[1:] {
+		if k.err.Error() == s {
+			return true
+		}
+	}
+	return false
+}
+
 const inf = int64(1) << 60
 
 // listRec is one member-list answer (a FillCache fill).
@@ -33,6 +78,7 @@ type listRec struct {
 	Group   string   `json:"group"`
 	Version int64    `json:"version"`
 	Outcome string   `json:"outcome"` // ok | error | notfound | "" (still in flight)
+	ErrKind string   `json:"error_kind,omitempty"`
 	Members []string `json:"members,omitempty"`
 	Gid     int64    `json:"gid"`
 	Enter   int64    `json:"enter"`
@@ -49,6 +95,7 @@ type checkRec struct {
 	SetKey  string   `json:"-"`
 	Version int64    `json:"version"`
 	Outcome string   `json:"outcome"` // ok | error
+	ErrKind string   `json:"error_kind,omitempty"`
 	Result  []string `json:"result"`
 	Gid     int64    `json:"gid"`
 	Enter   int64    `json:"enter"`
@@ -68,8 +115,8 @@ type dir struct {
 	mem       map[string]map[string]bool // existing groups -> members
 	lists     []*listRec
 	checks    []*checkRec
-	script    map[string][]bool // per group: queue of "fail this fill with a generic error"
-	checkFail int               // number of next direct checks that fail
+	script    map[string][]int // per group: queue of failure kinds for the next fills (0 = natural)
+	checkFail []int            // failure kinds of the next direct checks
 	gates     map[string]*gate
 	conc      map[string]int32
 	maxConc   map[string]int32
@@ -79,7 +126,7 @@ type dir struct {
 }
 
 func newDir() *dir {
-	return &dir{mem: map[string]map[string]bool{}, script: map[string][]bool{}, gates: map[string]*gate{},
+	return &dir{mem: map[string]map[string]bool{}, script: map[string][]int{}, gates: map[string]*gate{},
 		conc: map[string]int32{}, maxConc: map[string]int32{}, t0: time.Now()}
 }
 
@@ -155,9 +202,9 @@ func (d *dir) isMember(g, u string) bool {
 	return d.mem[g][u]
 }
 
-// scriptFill queues outcomes for the next fills of g: true = generic error, false = natural answer
+// scriptFill queues outcomes for the next fills of g: an errKinds index, 0 = natural answer
 // (member list, or groups.ErrGroupNotFound if the group does not exist).
-func (d *dir) scriptFill(g string, fail ...bool) {
+func (d *dir) scriptFill(g string, fail ...int) {
 	d.mu.Lock()
 	d.script[g] = append(d.script[g], fail...)
 	d.mu.Unlock()
@@ -165,15 +212,15 @@ func (d *dir) scriptFill(g string, fail ...bool) {
 
 func (d *dir) clearScript() {
 	d.mu.Lock()
-	d.script = map[string][]bool{}
-	d.checkFail = 0
+	d.script = map[string][]int{}
+	d.checkFail = nil
 	d.mu.Unlock()
 }
 
-func (d *dir) failNextChecks(n int) {
+func (d *dir) failNextCheck(kind int) {
 	d.mu.Lock()
-	d.checkFail += n
-	d.noteLocked("dir: next %d direct checks fail", n)
+	d.checkFail = append(d.checkFail, kind)
+	d.noteLocked("dir: next direct check fails (%s)", errKinds[kind].name)
 	d.mu.Unlock()
 }
 
@@ -247,7 +294,7 @@ func (d *dir) list(g string) ([]string, error) {
 	if d.conc[g] > d.maxConc[g] {
 		d.maxConc[g] = d.conc[g]
 	}
-	fail := false
+	fail := 0
 	if q := d.script[g]; len(q) > 0 {
 		fail = q[0]
 		d.script[g] = q[1:]
@@ -272,11 +319,12 @@ func (d *dir) list(g string) ([]string, error) {
 	rec.Version = d.ver
 	m := d.mem[g]
 	switch {
-	case fail:
+	case fail != 0 && errKinds[fail].err != groups.ErrGroupNotFound:
 		rec.Outcome = "error"
+		rec.ErrKind = errKinds[fail].name
 		rec.Exit = d.stamp()
-		return nil, errDirectory
-	case m == nil:
+		return nil, errKinds[fail].err
+	case m == nil || fail != 0:
 		rec.Outcome = "notfound"
 		rec.Exit = d.stamp()
 		return nil, groups.ErrGroupNotFound
@@ -314,11 +362,13 @@ func (d *dir) check(user string, gs []string) ([]string, error) {
 	rec := &checkRec{Kind: "check", User: user, Asked: append([]string(nil), gs...), SetKey: setKey(gs), Gid: id,
 		Enter: d.stamp(), Version: d.ver}
 	d.checks = append(d.checks, rec)
-	if d.checkFail > 0 {
-		d.checkFail--
+	if len(d.checkFail) > 0 {
+		k := d.checkFail[0]
+		d.checkFail = d.checkFail[1:]
 		rec.Outcome = "error"
+		rec.ErrKind = errKinds[k].name
 		rec.Exit = d.stamp()
-		return nil, errDirectory
+		return nil, errKinds[k].err
 	}
 	res := []string{}
 	for _, g := range gs {
@@ -339,11 +389,13 @@ func (d *dir) userGroups(user string) ([]string, error) {
 	defer d.mu.Unlock()
 	rec := &checkRec{Kind: "usergroups", User: user, Gid: id, Enter: d.stamp(), Version: d.ver}
 	d.checks = append(d.checks, rec)
-	if d.checkFail > 0 {
-		d.checkFail--
+	if len(d.checkFail) > 0 {
+		k := d.checkFail[0]
+		d.checkFail = d.checkFail[1:]
 		rec.Outcome = "error"
+		rec.ErrKind = errKinds[k].name
 		rec.Exit = d.stamp()
-		return nil, errDirectory
+		return nil, errKinds[k].err
 	}
 	res := []string{}
 	for g, m := range d.mem {
